@@ -116,6 +116,7 @@ func c01Run(c *engine.Ctx) {
 	universe.Scale(func(r universe.Recipe) { c01Case(c, r, "method") })
 	// presentations of IRIs, generic type names, list forms
 	universe.IRIPresentations(func(r universe.Recipe) { c01Case(c, r, "pkg") })
+	moreFamilies(universe.JSON, func(r universe.Recipe) { c01Case(c, r, "pkg") })
 	for i := range universe.Structs {
 		s := &universe.Structs[i]
 		universe.GenericNames(s, universe.JSON, both)
@@ -180,6 +181,9 @@ func c01Scalars(c *engine.Ctx) {
 	}
 	for _, sh := range universe.Shapes(universe.KNLV) {
 		sh := sh
+		if sh.NoJSON || sh.GobOnly {
+			continue
+		}
 		add("NaturalLanguageValues "+sh.Name, func() any { return sh.Build(&universe.Gen{}).Interface() }, func() any { return new(ap.NaturalLanguageValues) })
 	}
 	add("IRIs[3]", func() any { g := &universe.Gen{}; return ap.IRIs{g.IRI(), g.IRI(), g.IRI()} }, func() any { return new(ap.IRIs) })
